@@ -21,7 +21,8 @@ Judge(e) ==
     CASE e.ev = "step"  -> /\ Allowed(e.pre, e.op, e.post, e.ret)
                            /\ (e.ret # "panic" => ObsOK(e.post, e.obs))
                            /\ (WellFormed(e.pre) /\ e.ret # "panic" => WellFormed(e.post))
-      [] e.ev = "check" -> CheckAllowed(e.pre, e.post, e.ret, e.obs.nerrs)
+      \* (next_nerrs: Check, right afterwards, of a coherent schema that holds every type name this one mentions)
+      [] e.ev = "check" -> CheckAllowed(e.pre, e.post, e.ret, e.obs.nerrs) /\ e.obs.next_nerrs = 0
       [] OTHER -> FALSE
 
 Init == l = 1
